@@ -115,7 +115,7 @@ def gen_component(rnd, depth=0):
     lines = [rnd.choice(["BEGIN", "begin", "Begin"]) + ":" + (name if rnd.random() < 0.7 else name.lower())]
     exp_props = []
     for _ in range(rnd.randint(1, 5)):
-        kind = rnd.choice(["text", "text", "int", "dt", "dtz", "date", "dur", "uri", "xtext"])
+        kind = rnd.choice(["text", "text", "int", "dt", "dtz", "date", "dur", "uri", "xtext", "binary"])
         params = []
         if rnd.random() < 0.4:
             pv = gen_text(rnd, rnd.randint(1, 6)).replace('"', "'").replace("\\", "/").replace("\t", " ")
@@ -148,6 +148,14 @@ def gen_component(rnd, depth=0):
         elif kind == "dur":
             pname, v = "DURATION", None
             text = rnd.choice(["PT1H", "P1D", "-PT15M", "P1W", "P1DT2H3M4S"])
+        elif kind == "binary":
+            # an inline attachment (RFC 5545 3.8.1.1): the value text denotes OCTETS - not necessarily UTF-8, possibly starting with a BOM
+            import base64
+            pname, v = "ATTACH", None
+            payload = rnd.choice([b"\x89PNG\r\n\x1a\n\x00\xff", b"\xef\xbb\xbftext with a BOM", b"\xef\xbb\xbf\xef\xbb\xbftwo", b"plain text", b"\x00\x01\x02",
+                                  bytes(rnd.randrange(256) for _ in range(rnd.randint(1, 40)))])
+            params += [("ENCODING", "BASE64"), ("VALUE", "BINARY")]
+            text = base64.b64encode(payload).decode("ascii")
         else:
             pname, v = "URL", None
             text = "https://example.com/" + rnd.choice(["a", "b?c=d", "x;y"])
@@ -176,6 +184,31 @@ def fold(rnd, line):
         data = data[k:]
     out.append(data)
     return ("\r\n" + rnd.choice(" \t")).join(out)
+
+
+def binary_payloads(data):
+    """the octets denoted by the ATTACH;VALUE=BINARY lines of a serialisation, in order"""
+    import base64
+    text = data.decode("utf-8") if isinstance(data, bytes) else data
+    text = text.replace("\r\n ", "").replace("\r\n\t", "")
+    out = []
+    for line in text.split("\r\n"):
+        inq, cut = False, None
+        for i, ch in enumerate(line):          # the first colon outside a quoted parameter value ends the head
+            if ch == '"':
+                inq = not inq
+            elif ch == ":" and not inq:
+                cut = i
+                break
+        if cut is None:
+            continue
+        head, val = line[:cut], line[cut + 1:]
+        if head.upper().startswith("ATTACH") and "VALUE=BINARY" in head.upper():
+            try:
+                out.append(base64.b64decode(val, validate=True))
+            except Exception:  # noqa
+                out.append(("not base64", val))
+    return out
 
 
 def gen_calendar(rnd):
@@ -260,6 +293,9 @@ def run(b, tier, seed, findings, known_seen):
                         msg = exact(cal, exps)
                         if msg:
                             msg = "well-formed text, first parse not exact: " + msg
+                        elif binary_payloads(cal.to_ical()) != binary_payloads(text):
+                            msg = (f"well-formed text, first parse not exact: the inline attachments denote {binary_payloads(text)!r}, "
+                                   f"after parse + serialise {binary_payloads(cal.to_ical())!r}")
                 except Exception as e:  # noqa
                     msg = f"{type(e).__name__}: {e}"
                 if msg and len(fails) < 25:
